@@ -558,3 +558,251 @@ Section Leaf.
     rewrite (H pos nd name s H1 H2) in H3. discriminate.
   Qed.
 End Leaf.
+
+(* ---- (4) round trip into a new configuration object ---- *)
+Fixpoint fresh_children (l : list (str * child)) : list (str * child) :=
+  match l with [] => [] | (nm, c) :: r => (nm, fresh_child c) :: fresh_children r end.
+Lemma fresh_node : forall c o secs ch,
+  fresh (SNode c o secs ch) = SNode c c (map (fun ns => (fst ns, reset_sec (snd ns))) secs) (fresh_children ch).
+Proof.
+  intros. reflexivity.
+Qed.
+Lemma fresh_ct : forall a b, fresh a = fresh b -> ct_of a = ct_of b.
+Proof. intros [c o s ch] [c' o' s' ch'] H. rewrite !fresh_node in H. inversion H. reflexivity. Qed.
+
+Lemma ct_all_node : forall c o secs ch, ct_all (SNode c o secs ch) = opath_eqb o c && ct_all_children ch.
+Proof.
+  intros. reflexivity.
+Qed.
+Lemma ct_all_list : forall proto items, ct_all_child (CList proto items) = ct_all_items items.
+Proof.
+  intros. reflexivity.
+Qed.
+Lemma opath_eqb_eq : forall a b, opath_eqb a b = true -> a = b.
+Proof. intros [x|] [y|] H; cbn in H; try discriminate; [apply N.eqb_eq in H; subst|]; reflexivity. Qed.
+Lemma ct_all_own : forall n, ct_all n = true -> own_of n = ct_of n /\ ct_all_children (ch_of n) = true.
+Proof.
+  intros [c o s ch] H. rewrite ct_all_node in H. apply andb_true_iff in H. destruct H as [H1 H2].
+  split; [exact (opath_eqb_eq _ _ H1)|exact H2].
+Qed.
+
+Lemma plain_node : forall c o secs ch,
+  plain (SNode c o secs ch) = RMap (map (fun ns => (fst ns, plain_sec (snd ns))) secs ++ plain_children ch).
+Proof.
+  intros. reflexivity.
+Qed.
+Lemma plain_list : forall proto items, plain_child (CList proto items) = RSeq (map plain items).
+Proof.
+  intros. reflexivity.
+Qed.
+
+Section RoundTrip.
+  Variable aes : bool.
+  Variable enc : smethod -> bytes -> bytes -> str -> bytes.
+  Variable dec : smethod -> bytes -> bytes -> option str.
+  Variable b64 : bytes -> str.
+  Variable unb64 : str -> option bytes.
+  Variable newkey : path -> bytes.
+  Variable fs0 fs1 : list (path * bytes).    (* the file system at the dump, and at the later load *)
+  Hypothesis Hdec : forall m k iv p, m <> SBest -> dec m k (enc m k iv p) = Some p.
+  Hypothesis Hb64 : forall x, unb64 (b64 x) = Some x.
+  Hypothesis Hk : forall p, key_of newkey fs1 p = key_of newkey fs0 p.
+
+  Notation render := (render aes enc b64 newkey fs0).
+  Notation render_child := (render_child aes enc b64 newkey fs0).
+  Notation render_children := (render_children aes enc b64 newkey fs0).
+  Notation render_items := (render_items aes enc b64 newkey fs0).
+  Notation render_secs := (render_secs aes enc b64 newkey fs0).
+  Notation render_secret := (render_secret aes enc b64 newkey fs0).
+  Notation load_node := (load_node aes dec unb64 newkey fs1).
+  Notation load_child := (load_child aes dec unb64 newkey fs1).
+  Notation load_children := (load_children aes dec unb64 newkey fs1).
+  Notation load_items := (load_items aes dec unb64 newkey fs1).
+  Notation load_secs := (load_secs aes dec unb64 newkey fs1).
+  Notation to_python := (to_python aes dec unb64 newkey fs1).
+
+  Lemma load_node_eq : forall inh own keep c o secs ch es,
+    load_node inh own keep (SNode c o secs ch) (RMap es) =
+    (do s' <- load_secs keep (resolve inh own) es secs ;;
+     do c' <- load_children keep (resolve inh own) es ch ;;
+     Ok (SNode c own (fst s') (fst c'), snd s' ++ snd c')).
+  Proof.
+    intros. cbn [Secrets.load_node]. set (cur := resolve inh own).
+    destruct (load_secs keep cur es secs) as [s'| |]; cbn [bind]; try reflexivity.
+    assert (E : forall l,
+      (fix go (l : list (str * child)) : res (list (str * child) * list path) :=
+         match l with
+         | [] => Ok ([], [])
+         | (name, c0) :: r =>
+             do x <- match rget name es with
+                     | None => Ok ((if keep then c0 else fresh_child c0), [])
+                     | Some d => load_child cur c0 d
+                     end ;;
+             do y <- go r ;;
+             Ok ((name, fst x) :: fst y, snd x ++ snd y)
+         end) l = load_children keep cur es l).
+    { induction l as [|[nm x] r IH]; cbn [Secrets.load_children]; [reflexivity|]. rewrite <- IH. reflexivity. }
+    rewrite E. reflexivity.
+  Qed.
+
+  Lemma load_sub_eq : forall cur n es,
+    load_child cur (CSub n) (RMap es) =
+    (do x <- load_node cur (ct_of n) false n (RMap es) ;; Ok (CSub (fst x), snd x)).
+  Proof. intros. reflexivity. Qed.
+
+  Lemma load_list_eq : forall cur proto items ds,
+    load_child cur (CList proto items) (RSeq ds) =
+    (do x <- load_items cur proto ds ;; Ok (CList proto (fst x), snd x)).
+  Proof.
+    intros. cbn [Secrets.load_child].
+    assert (E : forall l,
+      (fix go (ds : list rtree) : res (list snode * list path) :=
+         match ds with
+         | [] => Ok ([], [])
+         | d :: r =>
+             do a <- load_node cur (ct_of proto) false proto d ;;
+             do b <- go r ;;
+             Ok (fst a :: fst b, snd a ++ snd b)
+         end) l = load_items cur proto l).
+    { induction l as [|x r IH]; cbn [Secrets.load_items]; [reflexivity|]. rewrite <- IH. reflexivity. }
+    rewrite E. reflexivity.
+  Qed.
+
+  Lemma to_python_rendered : forall cur s,
+    to_python cur (fst (render_secret cur s)) =
+    Ok ((if sec_nonempty s then s_val s else None), snd (render_secret cur s)).
+  Proof.
+    intros cur s. unfold Secrets.render_secret, sec_nonempty, nonempty.
+    remember (key_of newkey fs0 cur) as K0 eqn:EK.
+    assert (HK1 : key_of newkey fs1 cur = K0) by (rewrite Hk; symmetry; exact EK).
+    destruct (s_val s) as [[|c r]|]; cbn [fst snd]; try reflexivity.
+    unfold Secrets.to_python. rewrite HK1. clear EK HK1.
+    destruct (s_method s), aes; cbn; rewrite Hb64; cbn; rewrite Hdec by discriminate; reflexivity.
+  Qed.
+
+  Lemma plain_set_val : forall s' s,
+    plain_sec (set_val s' (if sec_nonempty s then s_val s else None)) = plain_sec s.
+  Proof.
+    intros s' s. unfold plain_sec, set_val, sec_nonempty, nonempty. cbn [s_val].
+    destruct (s_val s) as [[|c r]|]; reflexivity.
+  Qed.
+
+  Lemma load_secs_rendered : forall keep cur es secs' secs,
+    map fst secs' = map fst secs ->
+    (forall name s, In (name, s) secs -> rget name es = Some (fst (render_secret cur s))) ->
+    exists out, load_secs keep cur es secs' = Ok (out, snd (render_secs cur secs)) /\
+                map (fun ns => (fst ns, plain_sec (snd ns))) out =
+                map (fun ns => (fst ns, plain_sec (snd ns))) secs.
+  Proof.
+    induction secs' as [|[nm' s'] r' IH]; intros [|[nm s] r] Hn Hl; cbn [map fst] in Hn; try discriminate.
+    - exists []. split; reflexivity.
+    - inversion Hn as [[Hnm Hr]]. subst nm'.
+      destruct (IH r Hr (fun name x Hi => Hl name x (or_intror Hi))) as [out [Ho Hp]].
+      cbn [Secrets.load_secs Secrets.render_secs snd].
+      rewrite (Hl nm s (or_introl eq_refl)). rewrite to_python_rendered. cbn [bind fst snd].
+      rewrite Ho. cbn [bind fst snd].
+      eexists. split; [reflexivity|]. cbn [map fst snd]. rewrite plain_set_val, Hp. reflexivity.
+  Qed.
+
+  Definition RT (n : snode) : Prop :=
+    forall inh tg keep, wf n -> ct_all_children (ch_of n) = true -> fresh tg = fresh n ->
+    exists t', load_node inh (own_of n) keep tg (fst (render inh n)) = Ok (t', snd (render inh n)) /\
+               plain t' = plain n.
+  Definition RTc (c : child) : Prop :=
+    forall cur tc, wf_child c -> ct_all_child c = true -> fresh_child tc = fresh_child c ->
+    exists c', load_child cur tc (fst (render_child cur c)) = Ok (c', snd (render_child cur c)) /\
+               plain_child c' = plain_child c.
+
+  Lemma load_children_rendered : forall keep cur es ch' ch,
+    Forall (fun nc => RTc (snd nc)) ch ->
+    fresh_children ch' = fresh_children ch ->
+    (forall nm c, In (nm, c) ch -> rget nm es = Some (fst (render_child cur c))) ->
+    wf_children ch -> ct_all_children ch = true ->
+    exists out, load_children keep cur es ch' = Ok (out, snd (render_children cur ch)) /\
+                plain_children out = plain_children ch.
+  Proof.
+    induction ch' as [|[nm' c'] r' IH]; intros [|[nm c] r] HF Hf Hl Hw Hc; cbn [fresh_children] in Hf; try discriminate.
+    - exists []. split; reflexivity.
+    - inversion Hf as [[Hnm Hfc Hr]]. subst nm'.
+      inversion HF as [|? ? Hq HF']; subst. cbn [snd] in Hq.
+      cbn [wf_children] in Hw. destruct Hw as [Hw1 Hw2].
+      cbn [ct_all_children] in Hc. apply andb_true_iff in Hc. destruct Hc as [Hc1 Hc2].
+      destruct (IH r HF' Hr (fun name x Hi => Hl name x (or_intror Hi)) Hw2 Hc2) as [out [Ho Hp]].
+      destruct (Hq cur c' Hw1 Hc1 Hfc) as [c'' [Hlc Hpc]].
+      cbn [Secrets.load_children Secrets.render_children snd]. unfold load_slot.
+      rewrite (Hl nm c (or_introl eq_refl)). rewrite Hlc. cbn [bind fst snd]. rewrite Ho. cbn [bind fst snd].
+      eexists. split; [reflexivity|]. cbn [plain_children]. rewrite Hpc, Hp. reflexivity.
+  Qed.
+
+  Lemma load_items_rendered : forall cur tp proto items,
+    Forall RT items -> wf_items proto items -> ct_all_items items = true -> fresh tp = fresh proto ->
+    exists out, load_items cur tp (fst (render_items cur items)) = Ok (out, snd (render_items cur items)) /\
+                map plain out = map plain items.
+  Proof.
+    intros cur tp proto items HF. induction HF as [|i r Hi _ IH]; intros Hw Hc Hf.
+    - exists []. split; reflexivity.
+    - cbn [wf_items] in Hw. destruct Hw as [[Hfi Hwi] Hw2].
+      cbn [ct_all_items] in Hc. apply andb_true_iff in Hc. destruct Hc as [Hc1 Hc2].
+      destruct (IH Hw2 Hc2 Hf) as [out [Ho Hp]].
+      destruct (ct_all_own i Hc1) as [Hown Hcc].
+      assert (Hfti : fresh tp = fresh i) by congruence.
+      destruct (Hi cur tp false Hwi Hcc Hfti) as [t' [Hl Hpl]].
+      cbn [Secrets.load_items Secrets.render_items fst snd].
+      rewrite (fresh_ct _ _ Hfti), <- Hown, Hl. cbn [bind fst snd]. rewrite Ho. cbn [bind fst snd].
+      eexists. split; [reflexivity|]. cbn [map]. rewrite Hpl, Hp. reflexivity.
+  Qed.
+
+  Lemma roundtrip_node : forall n, RT n.
+  Proof.
+    apply (snode_ind2 RT RTc).
+    - intros c o secs ch IH inh [c' o' secs' ch'] keep Hw Hc Hf. cbn [ch_of own_of] in *.
+      rewrite !fresh_node in Hf.
+      assert (Hct : c' = c) by (apply (f_equal ct_of) in Hf; exact Hf).
+      assert (Hsecs : map (fun ns => (fst ns, reset_sec (snd ns))) secs' = map (fun ns => (fst ns, reset_sec (snd ns))) secs)
+        by (apply (f_equal secs_of) in Hf; exact Hf).
+      assert (Hch : fresh_children ch' = fresh_children ch) by (apply (f_equal ch_of) in Hf; exact Hf).
+      clear Hf. subst c'.
+      apply (proj1 (wf_node _ _ _ _)) in Hw. destruct Hw as [Hnd Hwc].
+      rewrite render_node. cbn [fst snd]. rewrite load_node_eq.
+      set (cur := resolve inh o).
+      set (es := fst (render_secs cur secs) ++ fst (render_children cur ch)).
+      assert (Hes : NoDup (map fst es)).
+      { unfold es. rewrite map_app, render_secs_keys, render_children_keys. exact Hnd. }
+      assert (Hn : map fst secs' = map fst secs).
+      { apply (f_equal (map fst)) in Hsecs. rewrite !map_map in Hsecs. cbn [fst] in Hsecs. exact Hsecs. }
+      destruct (load_secs_rendered keep cur es secs' secs Hn) as [so [Hso Hsp]].
+      { intros name s Hi. unfold rget. apply assoc_nodup; [exact Hes|].
+        unfold es. apply in_or_app. left. apply render_secs_in. exact Hi. }
+      destruct (load_children_rendered keep cur es ch' ch IH Hch) as [co [Hco Hcp]]; [|exact Hwc|exact Hc|].
+      { intros nm x Hi. unfold rget. apply assoc_nodup; [exact Hes|].
+        unfold es. apply in_or_app. right. apply render_children_in. exact Hi. }
+      rewrite Hso. cbn [bind fst snd]. rewrite Hco. cbn [bind fst snd].
+      eexists. split; [reflexivity|]. rewrite !plain_node, Hsp, Hcp. reflexivity.
+    - intros n IH cur tc Hw Hc Hf. destruct tc as [tn|tp ti]; cbn [fresh_child] in Hf; [|discriminate].
+      inversion Hf as [Hfn]. cbn [wf_child ct_all_child] in Hw, Hc.
+      destruct (ct_all_own n Hc) as [Hown Hcc].
+      destruct (IH cur tn false Hw Hcc Hfn) as [t' [Hl Hp]].
+      change (render_child cur (CSub n)) with (render cur n).
+      destruct (render_is_map aes enc b64 newkey fs0 cur n) as [es Ees]. rewrite Ees in *.
+      rewrite load_sub_eq.
+      rewrite (fresh_ct _ _ Hfn), <- Hown, Hl. cbn [bind fst snd].
+      eexists. split; [reflexivity|]. cbn [plain_child]. exact Hp.
+    - intros proto items _ IH cur tc Hw Hc Hf. destruct tc as [tn|tp ti]; cbn [fresh_child] in Hf; [discriminate|].
+      inversion Hf as [Hfp]. apply (proj1 (wf_list _ _)) in Hw. rewrite ct_all_list in Hc.
+      destruct (load_items_rendered cur tp proto items IH Hw Hc Hfp) as [out [Ho Hp]].
+      rewrite render_list. cbn [fst snd]. rewrite load_list_eq, Ho. cbn [bind fst snd].
+      eexists. split; [reflexivity|]. rewrite !plain_list, Hp. reflexivity.
+  Qed.
+
+  (* a new root configuration of the same schema, given the same root key file *)
+  Lemma secret_roundtrip_partial : forall t tg,
+    wf t -> known_F34 t = false -> fresh tg = fresh t -> own_of tg = own_of t ->
+    exists t', load_tree aes dec unb64 newkey fs1 tg (to_tree aes enc b64 newkey fs0 t) =
+               Ok (t', to_tree_opens aes enc b64 newkey fs0 t) /\
+               plain t' = plain t.
+  Proof.
+    intros t tg Hw Hk34 Hf Ho. unfold load_tree, to_tree, to_tree_opens. rewrite Ho.
+    apply roundtrip_node; [exact Hw| |exact Hf].
+    unfold known_F34 in Hk34. apply negb_false_iff in Hk34. exact Hk34.
+  Qed.
+End RoundTrip.
